@@ -688,6 +688,19 @@ def run(ctx: Ctx, rep: Report, tier: str) -> None:
     accumulator_only_grows(ctx, rep)
     no_dedup_collection(ctx, rep)
     classifier_ignores_values(ctx, rep)
+    # R12.14 premises: a builder parses under the settings the object has NOW (no snapshot of them outlives a change:
+    # C17 R17.6), and assigning a text always parses it (every normal path of a line setter stores what the other paths
+    # store: C01 R01.7 - a "same text as last time" shortcut skips lines that were edited away since)
+    from .c17 import derived_attributes_refreshed
+    from .c01 import setter_completeness
+
+    from .c17 import carried_flags
+
+    sub3 = Report("C12")
+    derived_attributes_refreshed(ctx, sub3)
+    setter_completeness(ctx, sub3)
+    carried_flags(ctx, sub3)
+    rep.absorb(sub3, "R12.14")
     # R12.9 premise: the whitespace normaliser the builders apply first maps every spelling of a line to its canonical
     # form (C06 R06.5): a line it leaves un-normalised matches no pattern and is dropped
     from .c06 import normaliser_fixed_point
